@@ -27,3 +27,9 @@ chk("C11", "other",
     "Images up to 3x4 and sparse nnz <= 3 (quick) / 4 (thorough) on a 3x3/4x4 grid; capacities 4..8 stand in for the 16384-entry label table (same code, smaller constant); pixel values as reals; allocation never fails; splat receives zeroed labels as its Python caller provides.",
     "symbolic execution of LLVM IR (llsym) with z3 path feasibility, per-path graph oracle / z3 reachability queries, violating models replayed on the rebuilt kernels through ctypes", "DESIGN.md 3/C11", "llsym")
 del NA["C11"]
+
+chk("C12", "other",
+    "Units add_pixel / merge / compute_moments proved equal to their definitions on fully symbolic 36-field rows (unbounded in values); with those definitions substituted, the labelimage call protocol (connectedpixels, blobproperties, bloboverlaps, moments, output rule) is executed from clang IR on symbolic frames: every threshold pattern of 2-3 frames of 2x2 (thorough: up to 4 frames / 2x3 / 1x4) is one path set on which the written 3D peaks are matched one-to-one with voxel-graph components (count, sums, centroids, max pixel, bounding box) by z3; bloboverlaps as a unit on all raster-ordered label pairs of 1x4 images with symbolic rows.",
+    "Frames <= 2x3, <= 4 frames; concrete distinct omega values in the protocol harness (symbolic omega in the units); threshold >= 0; real-arithmetic model; the Python driver's file writing and spline correction are mirrored/not covered.",
+    "symbolic execution of LLVM IR (llsym) with proved specifications substituted at unit boundaries + z3 per-path matching queries; models replayed through ctypes on the rebuilt kernels", "DESIGN.md 3/C12", "llsym")
+del NA["C12"]
